@@ -513,6 +513,8 @@ def variant_rule(crate, prop, rule="C01.R3"):
             fc = S.format_calls(tp.tokens)
             lit = S.unquote(fc[0][0]) if fc else None
             roles = [_role(b, l, pj)[0] for (_, l, _), pj in zip(tp.interps, tp.projs)]
+            payload_ok = all(any(fn_matches(c, r"types::type_def$") for _, c in M.deep_slice(b, l, component=_comp(pj))[0])
+                             for ((_, l, _), pj), ro in zip(zip(tp.interps, tp.projs), roles) if ro == "payload")
             slot_roles = [x for x in roles if x != "crate"]
             cons = _edge_constraints(b, ablk)
             untag = [v for s, v in cons if re.search(r"VariantAttr\.untagged$", s)]
@@ -540,6 +542,8 @@ def variant_rule(crate, prop, rule="C01.R3"):
                         verdict, why = "BAD", "a unit variant is emitted with a payload"
                     if "payload" in slot_roles and 1 in skip:
                         verdict, why = "BAD", "the payload of a newtype variant whose field is skipped is emitted"
+            if verdict == "ok" and not payload_ok:
+                verdict, why = "BAD", "a payload slot is filled with something that does not derive from type_def(..) of the variant (with the variant's `as` / `type` applied): the payload is re-derived from the field"
             r.inst(fn=VARIANT_FN, format=lit, slots=slot_roles, under={"variant untagged": untag, "tagged() (0 ext, 1 adj, 2 int, 3 untagged)": tagged, "fields (0 named, 1 unnamed, 2 unit)": fields, "field skip": skip},
                    verdict=verdict, where="%s:%s" % (tp.file, tp.line))
             if verdict == "BAD":
@@ -575,4 +579,148 @@ def variant_name_flow_rule(crate, prop, rule="C09.R5"):
             r.fail(prop, "variant-name-not-passed format_variant -> type_def",
                    "type_def() does not receive the variant's computed name: the tag value of an internally tagged struct variant ignores the enum's rename_all (`\"kind\": \"KeyPress\"` where serde writes `\"key_press\"`)", f, l)
     r.floor = 1
+    return r
+
+
+# ------------------------------------------------------------------ operands of `&`
+
+def intersection_operand_rule(crate, prop, rule):
+    """`A & B | C` is `(A & B) | C`.  A type placed after ` & ` must therefore be atomic: an object, a name, or something in
+    parentheses.  `inline_flattened()` is parenthesised by contract for unions (C14.R6); `inline()` / `name()` of an arbitrary
+    type is not (an enum's inline() is `X | Y`, Option's name() is `T | null`)."""
+    r = Result(rule, "every operand a template of macros/src/types places after ` & ` (templates read from MIR, token streams built in helpers or bound to variables spliced in) is passed through intersection_operand() (which parenthesises unions), literally wrapped in `( )`, or a ` & `-join over a list that only ever receives `inline_flattened()` parts (parenthesised by contract); an arbitrary inline()/name() there lets `|` inside it escape the intersection")
+    n = 0
+    for ib, tpls, keep in Q.function_templates(crate, "types::"):
+        for t in keep:
+            ex = Q.expanded(ib, t, tpls)
+            for lit, args in S.format_calls(ex):
+                u = S.unquote(lit) if lit else None
+                if not u or ("& {}" not in u and "&{}" not in u):
+                    continue
+                ph = [m.start() for m in re.finditer(r"(?<!\{)\{\}(?!\})", u.replace("{{", "\0\0").replace("}}", "\1\1"))]
+                for i, pos in enumerate(ph):
+                    if not u[:pos].rstrip().endswith("&"):
+                        continue
+                    n += 1
+                    toks = [x for x in S.flat(args[i]) if isinstance(x, str)] if i < len(args) else []
+                    arg = " ".join(toks)
+                    ok = bool(re.match(r"^# \w+ :: intersection_operand \( .* \)$", arg)) or (toks[:1] == ["("] and toks[-1:] == [")"])
+                    why = "intersection_operand()" if ok else None
+                    mj = re.search(r":: join \( & \[ ,? ?# (\w+) \] , \" & \" \)$", arg)
+                    if not ok and mj:
+                        # the list that is joined: everything pushed to it must be an inline_flattened() part
+                        nm = mj.group(1)
+                        loc = next((l for (n2, l, _) in t.interps if n2 == nm), None)
+                        if loc is None:
+                            for t2 in tpls:
+                                loc = loc or next((l for (n2, l, _) in t2.interps if n2 == nm), None)
+                        root = panics.operand_origin_ex(ib, {"k": "copy", "pl": {"l": loc, "p": []}})[1] if loc is not None else None
+                        if loc is not None:
+                            # inside `#(..)*` the interpolated value is an element of the list: go back to the list
+                            for _, c0 in M.deep_slice(ib, loc)[0]:
+                                if fn_matches(c0, r"quote_into_iter$") and c0["args"]:
+                                    root = panics.operand_origin_ex(ib, c0["args"][0])[1]
+                        pushed = []
+                        for blk, c in ib.calls():
+                            if ib.is_cleanup(blk) or not fn_matches(c, r"vec::Vec::<T, A>::push$") or "TokenStream" not in (c.get("arg_tys") or ["", ""])[1]:
+                                continue
+                            if panics.operand_origin_ex(ib, c["args"][0])[1] != root:
+                                continue
+                            pl = op_place(c["args"][1])
+                            tp = Q.stream_template(ib, pl["l"], tpls) if pl is not None else None
+                            pushed.append(tp.text() if tp is not None else None)
+                        ok = bool(pushed) and all(p is not None and re.search(r":: inline_flattened \( \)$", p) for p in pushed)
+                        why = "join over %d inline_flattened() part(s)" % len(pushed) if ok else None
+                        if not pushed:
+                            # the list is filled somewhere this function's MIR does not show (through a closure): undecided
+                            r.inst(fn=ib.path, literal=u, operand=arg[:120], atomic=None, because="joined list is filled out of sight: undecided", where="%s:%s" % (t.file, t.line))
+                            continue
+                    r.inst(fn=ib.path, literal=u, operand=arg[:120], atomic=ok, because=why, where="%s:%s" % (t.file, t.line))
+                    if not ok:
+                        r.fail(prop, "intersection-operand-unparenthesised %s" % ib.path,
+                               "`%s` interpolates `%s` after ` & ` without parentheses: when it is a union (an inlined enum payload, `Option<T>` by name, a `type = \"A | B\"` override) the result reads `{ tag } & A | B`, whose second arm has lost the tag" % (u, arg[:80]),
+                               t.file, t.line)
+    r.floor = 3
+    return r
+
+
+# ------------------------------------------------------------------ text between double quotes
+
+def quoted_sink_rule(crate, syn, prop, rule="C04.R4"):
+    r = Result(rule, "every value a template of macros/src/types interpolates between double quotes (tag, content, variant / type names) is, on every path, the result of an escape routine (escaped_name / escape_string) or the container's tag / content, which are escaped once where the container attributes are read; decided on the origin of the interpolated value in the MIR (helpers and intermediate variables looked through), not on its name")
+    esc = r"utils::\w*escape\w*$"
+    # central sanitisation of container tag/content (where the attributes are read)
+    central = {}
+    for x in ("EnumAttr", "StructAttr"):
+        got = set()
+        for b in crate.bodies:
+            if not re.search(r"%s::from_attrs$" % x, b.path):
+                continue
+            for blk, t in b.calls():
+                if b.is_cleanup(blk):
+                    continue
+                src = panics.operand_origin(b, t["args"][0]) if t["args"] else ""
+                m = re.search(r"%s\.(tag|content)$" % x, src)
+                if not m:
+                    continue
+                if fn_matches(t, esc):
+                    got.add(m.group(1))
+                elif fn_matches(t, r"Option::<T>::map$") and len(t["args"]) > 1:
+                    # `result.tag = result.tag.map(|tag| escape_string(&tag))`
+                    for o in origins(b, op_local(t["args"][1])) if op_local(t["args"][1]) is not None else []:
+                        cl = o["rv"].get("closure") if o["kind"] == "agg" else None
+                        for cb in crate.by_path.get(cl, []) if cl else []:
+                            if any(fn_matches(c2, esc) for _, c2 in cb.calls()):
+                                got.add(m.group(1))
+        central[x] = got
+        r.inst(attr=x, escaped_when_read=sorted(got))
+    tag_ok = "tag" in central.get("EnumAttr", ()) and "tag" in central.get("StructAttr", ())
+    content_ok = "content" in central.get("EnumAttr", ())
+    n = 0
+    for ib, tpls, keep in Q.function_templates(crate, "types::"):
+        for t in keep:
+            flat_ix = 0
+            for lit, args in S.format_calls(t.tokens):
+                v = S.unquote(lit) or ""
+                vv = re.sub(r"\{\{|\}\}", "##", v)
+                # which interpolation fills which argument
+                arg_first = []
+                for a in args:
+                    cnt = sum(1 for x in S.flat(a) if x == "#")
+                    arg_first.append((flat_ix, cnt))
+                    flat_ix += cnt
+                k = 0
+                for m in re.finditer(r"\{(\w*)\}", vv):
+                    if m.group(1):
+                        continue
+                    quoted = m.start() > 0 and vv[m.start() - 1] == '"' and m.end() < len(vv) and vv[m.end()] == '"'
+                    a_ix = k
+                    k += 1
+                    if not quoted or a_ix >= len(arg_first):
+                        continue
+                    first, cnt = arg_first[a_ix]
+                    argtxt = " ".join(x for x in S.flat(args[a_ix]) if isinstance(x, str))
+                    n += 1
+                    how = None
+                    if re.search(r"escape\w* \(", argtxt):
+                        how = "escape routine in the sink expression"
+                    elif cnt == 1 and first < len(t.interps):
+                        nm, loc, ty = t.interps[first]
+                        pj = t.projs[first] if first < len(t.projs) else []
+                        o = panics.operand_origin(ib, {"k": "copy", "pl": {"l": loc, "p": list(pj)}})
+                        org = origins(ib, loc, transparent=True, component=_comp(pj), stop=[esc])
+                        calls = [x for x in org if x["kind"] == "call"]
+                        if calls and all(fn_matches(x["t"], esc) for x in calls) and not any(x["kind"] == "arg" for x in org):
+                            how = "result of %s" % sorted({(M.callee(x["t"]) or "").split("::")[-1] for x in calls})
+                        elif re.search(r"(Tagged\.(Adjacently|Internally)::tag|StructAttr\.tag|EnumAttr\.tag)$", o) and tag_ok:
+                            how = "container tag, escaped where the attributes are read"
+                        elif re.search(r"(Tagged\.Adjacently::content|EnumAttr\.content)$", o) and content_ok:
+                            how = "container content, escaped where the attributes are read"
+                    r.inst(fn=ib.path, where="%s:%s" % (t.file, t.line), literal=v[:40], sink=argtxt[:60], escaped_by=how)
+                    if how is None:
+                        r.fail(prop, "unescaped-quoted-sink %s" % ib.path,
+                               "`%s` is interpolated between double quotes in %r (template at line %s) without escaping: a `\"` or `\\` in a rename/tag/content string breaks the string literal in the generated .ts" % (argtxt[:60], v[:40], t.line),
+                               t.file, t.line)
+    r.stats = {"quoted_sinks": n}
+    r.floor = 10
     return r
